@@ -135,6 +135,15 @@ check("C05", "tool-sim", "exploration",
       "Structure-aimed sampling, not coverage-guided fuzzing; consistent multi-field forgeries are out of reach.",
       "deterministic simulation: stored-byte fault injection aimed by an independent field map, crash/hang oracle", "DESIGN.md 5/C05")
 
+check("C06", "tool-sim + path monitor", "exploration",
+      "Store-mode images of trees built for rewriting get directory entry names ('.', '..', 'a/b', '/abs', embedded NUL, case variants, "
+      "duplicates of a sibling incl. the symlink + same-named directory/file attack), entry types and symlink targets (relative and "
+      "absolute paths to decoys outside R) rewritten through the field map; rdsquashfs -u <sub-path> -p R runs with random subsets of "
+      "-C -O -T -X -Z in a fresh jail. The simos jail monitor resolves every path-taking call the way the kernel will and requires the "
+      "object acted on to lie under R; afterwards the snapshot of the jail outside R must be unchanged; exit status 0 or 1.",
+      "Names are rewritten in place, so only the generated name lengths occur; unpacking runs as root on tmpfs.",
+      "deterministic simulation: stored-byte fault injection + per-call confinement invariant + before/after snapshot", "DESIGN.md 5/C06")
+
 PENDING = ["C01","C02","C03","C04","C05","C06","C07","C08","C10","C11","C12","C13","C14","C15","C19"]
 NA_REASONS = {
  "C16": "pure relation between two text transducers (describe printer, pack-file tokenizer); no schedule, clock, fault, crash point or history in the statement - deciding it is input enumeration, which deterministic simulation does not do (DESIGN.md section 0)",
@@ -158,7 +167,7 @@ def main():
             "add_only": True,
         },
         "engines": [
-            {"name": "tool-sim", "path": "simos/ + py/pipelines.py", "serves_properties": ["C01", "C02", "C03", "C04", "C05", "C07", "C08", "C15", "C11", "C12", "C13", "C14"], "kind_free_text": "each tool's real sources linked with simos under --wrap; one process per simulated run"},
+            {"name": "tool-sim", "path": "simos/ + py/pipelines.py", "serves_properties": ["C01", "C02", "C03", "C04", "C05", "C06", "C07", "C08", "C15", "C11", "C12", "C13", "C14"], "kind_free_text": "each tool's real sources linked with simos under --wrap; one process per simulated run"},
             {"name": "pool-sim", "path": "scn/pool.c", "serves_properties": ["C09"], "kind_free_text": "real threadpool.c under the simos scheduler, many runs per process"},
         ],
         "checks": [CHECKS[k] for k in sorted(CHECKS)],
